@@ -339,6 +339,7 @@ def handleZo (op : String) (j : Json) : Except String Json := do
     let today ← dateOf j "today"
     let toks := Lex.lex Gen.FileLexer.rules txt.toList
     let toks := toks.filter (fun t => t.name != "<err>")    -- lexer errors are dropped silently (no listener on the lexer)
+    if Zo.hasUrlColonWord toks then pure (Json.mkObj [("err", "syntax"), ("what", "url next to '::' in one word: outside the modelled fragment")]) else
     match Zo.compileToks today Gen.fileDefaultPriority.toList toks with
     | .ok r => pure (Json.mkObj [("ok", Json.arr (r.notes.map zoNoteJson).toArray)])
     | .error (.syntax w) => pure (Json.mkObj [("err", "syntax"), ("what", w)])
